@@ -63,7 +63,8 @@ def gen_element(rng, kind, used, spicy, all_min_max=True):
         if all_min_max or rng.random() < 0.7:
             el["min"], el["max"] = rng.choice([(0, 100), (-10, 10), (0, 0), (-1000000, 1000000)])
         else:
-            el["min"], el["max"] = None, None
+            # no limits, or only one of the two declared
+            el["min"], el["max"] = rng.choice([(None, None), (None, None), (None, 360), (-90, None), (5, None), (None, -5)])
         el["step"] = rng.choice([0, 1, 0.5])
     elif kind == "Text":
         el["default"] = rng.choice([None, "", "lorem", _label(rng, spicy), "a b  c", "line1\nline2"])
